@@ -115,6 +115,30 @@ func (r *rewriter) rewriteCall(c *astutil.Cursor, ce *ast.CallExpr, deferred boo
 	}
 	if s := r.info.Selections[se]; s != nil && s.Kind() == types.MethodVal {
 		recvT := s.Recv()
+		if idx := s.Index(); len(idx) > 1 {
+			// promoted method of an embedded field (e.g. a struct that embeds sync.Mutex and
+			// calls x.Lock()): make the field path explicit, x.Lock() -> x.Mutex.Lock(), so that
+			// the rewrite below sees the real receiver
+			t, x := recvT, se.X
+			ok := true
+			for _, i := range idx[:len(idx)-1] {
+				if p, isP := types.Unalias(t).(*types.Pointer); isP {
+					t = p.Elem()
+				}
+				st, isS := types.Unalias(t).Underlying().(*types.Struct)
+				if !isS || i >= st.NumFields() {
+					ok = false
+					break
+				}
+				f := st.Field(i)
+				x = &ast.SelectorExpr{X: x, Sel: ast.NewIdent(f.Name())}
+				t = f.Type()
+			}
+			if ok {
+				se.X, recvT = x, t
+				stats["promoted"]++
+			}
+		}
 		pkg, name, isPtr := namedOf(recvT)
 		if _, isIface := types.Unalias(recvT).Underlying().(*types.Interface); isIface && pkg == "sync" && name == "Locker" {
 			switch se.Sel.Name {
